@@ -185,9 +185,12 @@ MeansFrom(ps, i) ==
   ELSE LET ok == SelectSeq([s \in 1..Len(ps) |-> s], LAMBDA s : ~IsNaN(ps[s][1])) IN
        [m \in 1..i.k |-> IF ok = <<>> THEN RNaN ELSE PropMeanSeq([x \in 1..Len(ok) |-> ps[ok[x]][m]])]
 MeansOf(i) == MeansFrom(PerSample(i), i)
+\* cv = 1 (fixed / crossvalidation): one sample, 3-d array; the mean is taken per model, so any NaN pattern
+\* is inside the contract - a model without a single value has the mean NaN and leaves the others alone.
+\* cv = 2: the NaN status of a sample's value must be the same for every model (what every evaluator writes).
 Admissible(i) == LET ps == PerSample(i) IN
-   /\ (i.cv = 1 => Len(i.ev) = 1 /\ i.d = 3)
-   /\ \A s \in 1..Len(ps) : \A m \in 1..i.k : IsNaN(ps[s][m]) = IsNaN(ps[s][1])
+   IF i.cv = 1 THEN Len(i.ev) = 1 /\ i.d = 3
+   ELSE \A s \in 1..Len(ps) : \A m \in 1..i.k : IsNaN(ps[s][m]) = IsNaN(ps[s][1])
 MeansOutRec(ms) == [mv |-> <<>>, dv |-> <<>>, ncv |-> <<>>, means |-> ms, cov |-> <<>>]
 
 (* ---------------- fixed evaluation ---------------------------------------- *)
